@@ -634,8 +634,6 @@ def classify(proj, d, order, missing, extra, traces, tags_items, variant):
     """groups of a company/alone difference: {key of a known finding class or None: [findings]}"""
     tpl = proj["opts"]["template"]
     groups = {}
-    if extra:
-        groups[None] = list(extra)
     texts = {}
     for f in order:
         for x in proj["_alone"][f]:
@@ -647,6 +645,19 @@ def classify(proj, d, order, missing, extra, traces, tags_items, variant):
             continue
         hit = classify_one(x, order, traces)
         groups.setdefault(hit, []).append(x)
+    # an extra finding whose rendered text equals that of a missing finding of a known class: alone, the duplicate filter of the
+    # file dropped it behind that finding (template without line); in company the other one is suppressed and this one is shown
+    if extra:
+        rest = []
+        for x in extra:
+            k = next((key for key, items in groups.items() if key in (K_TAIL, K_MACRO) and
+                      any(render(tpl, y) == render(tpl, x) and y["locs"] and x["locs"] and y["locs"][0][0] == x["locs"][0][0] for y in items)), None)
+            if k is None:
+                rest.append(x)
+            else:
+                groups[k].append(x)
+        if rest:
+            groups.setdefault(None, []).extend(rest)
     return groups
 
 
@@ -995,6 +1006,9 @@ def run(ctx, res):
             return out
         except core.CheckBroken as ex:
             return dict(broken=str(ex))
+        except Exception:
+            import traceback
+            return dict(broken="project %d: %s" % (k, traceback.format_exc()[-1800:]))
     import time
     t0 = time.time()
     with ThreadPoolExecutor(max_workers=8) as ex:
